@@ -39,7 +39,7 @@ PROPS = {
         stages=[codec_stage()],
         rule=CODEC_RULE,
         assumptions=COMMON_ASSUME + ['all domain packets carry a non-zero payload-type byte, which is how the independent walker tells a message from padding'],
-        floors=dict(quick=dict(distinct_nontrivial=2000, padded_frames=100, empty_batches=4),
+        floors=dict(quick=dict(distinct_nontrivial=2000, padded_frames=100, empty_batches=4, top_of_range_cases=1728),
                     thorough=dict(distinct_nontrivial=20000, padded_frames=1000, empty_batches=4)),
     ),
     'C08': dict(
@@ -88,7 +88,7 @@ PROPS = {
               '300 inconsistent or bus-error variants per typed kind placed between valid messages; seeded random frames (0..6 messages, 15% inconsistent, 15% bus error) each also cut, padded and repeated. '
               'Non-trivial = a decode that returned >= 1 packet; distinct = distinct hash of (message type, per message (kind, class), variant, validity pattern, packet count).'),
         assumptions=COMMON_ASSUME,
-        floors=dict(quick={'distinct_nontrivial': 5000, 'cut_points': 3000, 'messages_expected_invalid': 5000, 'feat:c04_kinds': 12, 'feat:c04_invalid_kinds': 7},
+        floors=dict(quick={'distinct_nontrivial': 5000, 'cut_points': 3000, 'messages_expected_invalid': 5000, 'feat:c04_kinds': 12, 'feat:c04_invalid_kinds': 7, 'feat:c04_inner_length_kinds': 7, 'inner_length_field_values': 5000},
                     thorough={'distinct_nontrivial': 50000, 'cut_points': 3000, 'feat:c04_kinds': 12}),
     ),
     'C05': dict(
